@@ -205,6 +205,7 @@ type c07Spec struct {
 	shape        func(v c07Msg) string   // optional: stable class of the value for signatures
 	parseOnly    bool                    // the type's Encode is a stub: Parse(reference body) only
 	dims         []c07Dim
+	reused       c07Msg // one receiver that has parsed every earlier value of this run (oracle 1b)
 }
 
 func (sp *c07Spec) key() string {
@@ -597,6 +598,26 @@ func c07Eval(sp *c07Spec, mk func() c07Msg) (fail *c07Fail, outcome string) {
 		return &c07Fail{"roundtrip:" + key + ":field=" + c07SigPath(d), func() string {
 			return fmt.Sprintf("%s: Parse of %s %s yields %s: field %s: %s", head(), what, hx(enc1), c07JSON(p), d, m)
 		}}, "fail"
+	}
+	// (1b) the same on ONE receiver per type that has parsed every earlier value of this run (the per-connection handler
+	// object): what it held before must not show in the result
+	if sp.reused == nil {
+		sp.reused = sp.blank()
+	}
+	{
+		m := jt808.NewJTMessage()
+		m.Header.ProtocolVersion = sp.ver
+		m.Body = exact(enc1)
+		var rerr error
+		if pn := vc.Catch(func() { rerr = sp.reused.Parse(m) }); pn != "" || rerr != nil {
+			sp.reused = nil // start over with a fresh one; the failure itself is oracle (1)'s business on a fresh receiver
+		} else if d, mm := c07Diff(reflect.ValueOf(orig), reflect.ValueOf(sp.reused), ""); d != "" {
+			got := c07JSON(sp.reused)
+			sp.reused = nil
+			return &c07Fail{"roundtrip-reused-receiver:" + key + ":field=" + c07SigPath(d), func() string {
+				return fmt.Sprintf("%s: a receiver that parsed earlier values yields %s for %s %s: field %s: %s (a fresh receiver yields the value)", head(), got, what, hx(enc1), d, mm)
+			}}, "fail"
+		}
 	}
 	// (2) Encode(Parse(Encode(v))) == Encode(v)
 	if !sp.parseOnly {
